@@ -367,6 +367,7 @@ func updateConfigFile() {
 		value := slip.UserPkg.JustGet(key)
 		p := *slip.DefaultPrinter()
 		p.Readably = true
+		p.Base = 10 // read back with the default *read-base*
 		b = fmt.Appendf(b, "(setq %s ", key)
 		if list, ok := value.(slip.List); ok && 0 < len(list) {
 			b = append(b, '\'')
